@@ -380,6 +380,12 @@ func (runInfo *runInfoStruct) makeCallArgs(rt reflect.Type, isRunVMFunction bool
 	}
 	if numIn < 1 {
 		// no arguments needed
+		if len(callExpr.SubExprs) > 0 && !callExpr.VarArg {
+			// arguments given to a function without parameters: reject the call, do not silently skip them
+			runInfo.err = newStringError(callExpr, fmt.Sprintf("function wants %v arguments but received %v", numIn, len(callExpr.SubExprs)))
+			runInfo.rv = nilValue
+			return nil, false
+		}
 		if isRunVMFunction {
 			// for runVMFunction first arg is always context
 			return []reflect.Value{reflect.ValueOf(runInfo.ctx)}, false
